@@ -72,3 +72,18 @@ Example ex_tree_roundtrip : parse_text (print_expr false ex_tree) = Some (norm e
 Proof. apply print_parse_roundtrip_concrete; [apply ex_tree_wf | apply ex_tree_lexok]. Qed.
 Example ex_tree_fixed : print_expr true (norm ex_tree) = print_expr true ex_tree.
 Proof. apply (print_fixed_point_concrete false ex_tree); [apply ex_tree_wf | apply ex_tree_lexok | apply ex_tree_roundtrip]. Qed.
+
+(* conditional and index access: nested conditionals, assignment in a branch, comma in a branch and in an index *)
+Definition ex_tree2 : expr :=
+  ECond (EBin BNullish (EId (zs "a")) (EIndex (EId (zs "b")) (EBin BComma (EId (zs "c")) (EId (zs "d")))))
+        (EBin BAssign (EIndex (EDot (EId (zs "e")) (zs "f")) (ENum (zs "0"))) (ECond (EId (zs "g")) (EId (zs "h")) (EId (zs "i"))))
+        (EBin BAdd (ECond (EId (zs "j")) (EBin BComma (EId (zs "k")) (EId (zs "l"))) (EId (zs "m"))) (EUn UPostInc (EIndex (EId (zs "n")) (EId (zs "o"))))).
+Example ex_tree2_print : print_expr true ex_tree2 = zs "a??b[c,d]?e.f[0]=g?h:i:(j?(k,l):m)+n[o]++".
+Proof. vm_compute. reflexivity. Qed.
+Example ex_tree2_wf : wf ex_tree2 /\ lexok ex_tree2.
+Proof.
+  unfold ex_tree2. simpl. unfold word_ok, word_shape, id_shape, num_shape.
+  repeat split; try discriminate; try (left; repeat split; try discriminate; vm_compute; reflexivity); try (vm_compute; reflexivity); try (intro; reflexivity); try (intro; discriminate).
+Qed.
+Example ex_tree2_roundtrip : parse_text (print_expr true ex_tree2) = Some (norm ex_tree2).
+Proof. apply print_parse_roundtrip_concrete; apply ex_tree2_wf. Qed.
